@@ -247,6 +247,9 @@ query_t::parser_t::parse_query_term(query_t::lexer_t::token_t::kind_t tok_contex
 {
   expr_t::ptr_op_t node;
 
+  if (++term_count > MAX_TERMS)
+    throw_(parse_error, _("Query has too many terms"));
+
   lexer_t::token_t tok = lexer.next_token(tok_context);
   switch (tok.kind) {
   case lexer_t::token_t::TOK_SHOW:
@@ -339,7 +342,10 @@ query_t::parser_t::parse_query_term(query_t::lexer_t::token_t::kind_t tok_contex
     break;
 
   case lexer_t::token_t::LPAREN:
+    if (++nesting_depth > MAX_NESTING_DEPTH)
+      throw_(parse_error, _("Query is nested too deeply"));
     node = parse_query_expr(tok_context, true);
+    --nesting_depth;
     tok = lexer.next_token(tok_context);
     if (tok.kind != lexer_t::token_t::RPAREN)
       tok.expected(')');
